@@ -426,7 +426,7 @@ where
 
 fn pred(o: &Opts, out: &mut Out, run: &mut u64) {
     let mut rng = o.rng(501);
-    let n = if o.thorough() { 150 } else { 10 };
+    let n = if o.thorough() { 150 } else { 8 };
     let (code, _) = program();
     for k in 0..n as u64 {
         let params = small_params(&mut rng, k);
@@ -500,7 +500,7 @@ fn valid_script(rng: &mut StdRng, k: u64, params: &ConsensusParameters, code: Ve
 
 fn script_sessions(o: &Opts, out: &mut Out, run: &mut u64) {
     let mut rng = o.rng(502);
-    let n = if o.thorough() { 60 } else { 4 };
+    let n = if o.thorough() { 60 } else { 3 };
     let (code, _) = program();
     for k in 0..n as u64 {
         let params = small_params(&mut rng, k);
